@@ -174,3 +174,44 @@ def fresh_index(n, name='i'):
     """a fresh index constant together with its range formula"""
     i = z3.Int(sym.fresh_name(name))
     return i, z3.And(i >= 0, i < lift(n))
+
+
+def char_at(ct, r):
+    """letter r of a constraint-type string (Python str natively; Seg of letters symbolically)"""
+    from .interp import Seg, RepStr, Family
+    if isinstance(ct, str):
+        return ct[int(r)]
+    if isinstance(ct, RepStr):
+        return ct.ch
+    if isinstance(ct, Seg):
+        offs = 0
+        pieces = []
+        for sg in ct.segs:
+            if isinstance(sg, Family):
+                raise sym.Unsupported('char_at into a loop-built family')
+            ln = sg.n if isinstance(sg, RepStr) else len(sg)
+            pieces.append((offs, ln, sg))
+            offs = add(offs, ln)
+        out = None
+        for (o, ln, sg) in reversed(pieces):
+            if isinstance(sg, RepStr):
+                val = sg.ch
+            else:
+                # explicit string: pick by position
+                val = None
+                for k in range(len(sg) - 1, -1, -1):
+                    val = sg[k] if val is None else sym.ite(eq(r, add(o, k)), sg[k], val)
+            out = val if out is None else sym.ite(lt(r, add(o, ln)), val, out)
+        return out
+    raise sym.Unsupported('char_at of ' + type(ct).__name__)
+
+
+def str_len(ct):
+    from .interp import Seg, RepStr
+    if isinstance(ct, str):
+        return len(ct)
+    if isinstance(ct, RepStr):
+        return ct.n
+    if isinstance(ct, Seg):
+        return ct.total()
+    raise sym.Unsupported('str_len')
